@@ -274,8 +274,9 @@ def predicted_names(scope, atoms, idx, spec):
     if explicit not in (True, "blank") or g == 3:
         return None
     f = atoms["f%d" % idx]
-    cscope = {"lib": "", "ns": atoms["ns"] + "_", "cls": atoms["ns"] + "_" + atoms["cls"] + "_"}[scope]
-    fscope = atoms["cls"] + "_" if scope == "cls" else ""
+    cscope = {"lib": "", "ns": atoms["ns"] + "_", "cls": atoms["ns"] + "_" + atoms["cls"] + "_",
+              "deep": atoms["ns"] + "_inner_" + atoms["cls"] + "_"}[scope]
+    fscope = atoms["cls"] + "_" if scope in ("cls", "deep") else ""
     cn, fn = set(), set()
     for i in range(k):
         if i == k - 1 and d:
@@ -320,6 +321,10 @@ def build_library(atoms, scope, funcs):
         lib["declarations"] = decls
     elif scope == "ns":
         lib["declarations"] = [{"decl": "namespace %s" % atoms["ns"], "declarations": decls}]
+    elif scope == "deep":
+        # methods of a class two namespaces down
+        lib["declarations"] = [{"decl": "namespace %s" % atoms["ns"], "declarations": [
+            {"decl": "namespace inner", "declarations": [{"decl": "class %s" % atoms["cls"], "declarations": decls}]}]}]
     elif scope == "flat":
         # the same names at library level and in a namespace that is flattened into the library's Fortran module
         import copy as _copy
@@ -451,7 +456,7 @@ def check_structure(scope, funcs):
         # functions that need no Fortran wrapper are bound directly through their interface
         mine_i = [n for n in names["f_iface"] if fname in n and "bufferify" not in n]
         nspec = len(mine_f) if mine_f else 0
-        if scope != "cls" or True:
+        if scope not in ("cls", "deep") or True:
             total_f = len(set(mine_f)) + len([n for n in mine_i if not any(n[2:] == s or n == "c_" + s for s in mine_f)])
         if len(set(mine_f)) > want_f:
             return "C++ name %s has %d callable Fortran signatures but %d Fortran specifics %r" % (atoms["f%d" % idx], want_f, len(mine_f), mine_f[:8]), None
@@ -464,7 +469,7 @@ def check_structure(scope, funcs):
             for p in procs:
                 if fname not in p:
                     return "generic interface %s lists %s, a specific of another name" % (gname, p), None
-            if want_f > 1 and scope not in ("cls", "flat") and gname == fname and len(procs) != want_f:
+            if want_f > 1 and scope not in ("cls", "deep", "flat") and gname == fname and len(procs) != want_f:
                 return "generic interface %s lists %d specifics, the C++ name has %d callable signatures" % (gname, len(procs), want_f), None
             if scope == "flat" and want_f1 > 1 and len(procs) != want_f1:
                 return "generic interface %s lists %d specifics, its C++ name has %d callable signatures" % (gname, len(procs), want_f1), None
@@ -575,10 +580,12 @@ def structures(tier):
     for s in single:
         if s[4] is False and not (s[2] and s[1] and s[0] == 1):
             out.append(("flat", [s]))
-    for scope in ("lib", "ns", "cls"):
+    for scope in ("lib", "ns", "cls", "deep"):
         for s in single:
-            if scope == "cls" and s[3]:
+            if scope in ("cls", "deep") and s[3]:
                 continue
+            if scope == "deep" and not (s[0] > 1 or s[1]):
+                continue        # (the deep scope is about overload / default-argument processing of nested classes)
             if s[2] and s[1] and s[0] == 1:
                 continue        # known finding: function template with trailing default arguments
             out.append((scope, [s]))
@@ -603,7 +610,7 @@ def run_structs(chunk):
         rec = {"scope": scope, "funcs": funcs, "what": v, "queries": 0, "unknown": 0}
         if v is None:
             for key in ("c_templates", "f_templates"):
-                cex, nq, unk = injective(info[key], reserved_for=("f0", "f1") if scope == "cls" else ())
+                cex, nq, unk = injective(info[key], reserved_for=("f0", "f1") if scope in ("cls", "deep") else ())
                 rec["queries"] += nq
                 rec["unknown"] += unk
                 if cex:
